@@ -179,4 +179,390 @@ CmpItems(p, ty, lits) ==
        Decl(p \o "o", A1("number")), Out(p \o "o"),
        Rule(At(p \o "o", <<N(1)>>), <<At(p \o "a", <<V("x"), V("y"), V("z")>>)>> \o lits) >>
 CmpExpect(p, holds) == Rows(p \o "o", IF holds THEN << <<"1">> >> ELSE <<>>)
+
+(***************************************************************************)
+(* The catalogue.  Probes(p) lists one minimal program per construct kind  *)
+(* and variant; p prefixes every name a probe declares.                    *)
+(***************************************************************************)
+TypesOf(o) == {ty \in {"i", "u", "f", "s"} : ty \in DOMAIN o.ops}
+SetToSeq(s) == LET RECURSIVE f(_) f(r) == IF r = {} THEN <<>> ELSE LET x == CHOOSE y \in r : TRUE IN <<x>> \o f(r \ {x}) IN f(s)
+TySeq(o) == SelectSeq(<<"i", "u", "f", "s">>, LAMBDA ty : ty \in DOMAIN o.ops)
+Flat(ss) == LET RECURSIVE f(_) f(i) == IF i > Len(ss) THEN <<>> ELSE ss[i] \o f(i + 1) IN f(1)
+
+\* ---- A. intrinsic functors ---------------------------------------------------
+FunctorProbes(p) ==
+    Flat([i \in 1..Len(InfixOps) |-> LET o == InfixOps[i] IN
+          [j \in 1..Len(TySeq(o)) |-> LET ty == TySeq(o)[j] IN
+             ExprProbe(p, o.kind, ty, ty, ty, Fn(o, ty, <<V("x"), V("y")>>, FALSE))]])
+    \o Flat([i \in 1..Len(PrefixOps) |-> LET o == PrefixOps[i] IN
+          [j \in 1..Len(TySeq(o)) |-> LET ty == TySeq(o)[j] IN
+             ExprProbe(p, o.kind, ty, ty, ty, Fn(o, ty, <<V("x")>>, FALSE))]])
+    \o Flat([i \in 1..Len(CallOps2) |-> LET o == CallOps2[i] IN
+          [j \in 1..Len(TySeq(o)) |-> LET ty == TySeq(o)[j] IN
+             ExprProbe(p, o.kind, ty, ty, ty, Fn(o, ty, <<V("x"), V("y")>>, FALSE))]])
+    \o Flat([i \in 1..Len(CallOps2) |-> LET o == CallOps2[i] IN
+          [j \in 1..Len(TySeq(o)) |-> LET ty == TySeq(o)[j] IN
+             ExprProbe(p, o.kind, ty \o "3", ty, ty, Fn(o, ty, <<V("x"), V("y"), V("z")>>, FALSE))]])
+    \o << ExprProbe(p, "functor:cat", "2", "s", "s", Call("cat", "CAT", <<V("x"), V("y")>>)),
+          ExprProbe(p, "functor:cat", "3", "s", "s", Call("cat", "CAT", <<V("x"), V("y"), S("-")>>)),
+          ExprProbe(p, "functor:strlen", "s", "s", "i", Call("strlen", "STRLEN", <<V("x")>>)),
+          ExprProbe(p, "functor:substr", "s", "s", "s", Call("substr", "SUBSTR", <<V("x"), N(1), N(1)>>)),
+          Probe("functor:ord", "s", ExprItems(p, "s", "i", Call("ord", "ORD", <<V("x")>>)), <<>>),
+          ExprProbe(p, "functor:to_string", "i", "i", "s", Call("to_string", "I2S", <<V("x")>>)),
+          ExprProbe(p, "functor:to_string", "u", "u", "s", Call("to_string", "U2S", <<V("x")>>)),
+          ExprProbe(p, "functor:to_string", "f", "f", "s", Call("to_string", "F2S", <<V("x")>>)),
+          ExprProbe(p, "functor:to_string", "s", "s", "s", Call("to_string", "S2S", <<V("x")>>)),
+          ExprProbe(p, "functor:to_number", "s", "s", "i", Call("to_number", "S2I", <<S("12")>>)),
+          ExprProbe(p, "functor:to_number", "u", "u", "i", Call("to_number", "U2I", <<V("x")>>)),
+          ExprProbe(p, "functor:to_number", "f", "f", "i", Call("to_number", "F2I", <<V("x")>>)),
+          ExprProbe(p, "functor:to_number", "i", "i", "i", Call("to_number", "I2I", <<V("x")>>)),
+          ExprProbe(p, "functor:to_unsigned", "s", "s", "u", Call("to_unsigned", "S2U", <<S("12")>>)),
+          ExprProbe(p, "functor:to_unsigned", "i", "i", "u", Call("to_unsigned", "I2U", <<V("x")>>)),
+          ExprProbe(p, "functor:to_unsigned", "f", "f", "u", Call("to_unsigned", "F2U", <<V("x")>>)),
+          ExprProbe(p, "functor:to_float", "s", "s", "f", Call("to_float", "S2F", <<S("1.5")>>)),
+          ExprProbe(p, "functor:to_float", "i", "i", "f", Call("to_float", "I2F", <<V("x")>>)),
+          ExprProbe(p, "functor:to_float", "u", "u", "f", Call("to_float", "U2F", <<V("x")>>)),
+          \* generators: every element of the range is a row
+          Probe("functor:range", "i2", ExprItems(p, "i", "i", Call("range", "RANGE", <<V("z"), V("x")>>)),
+                Rows(p \o "o", LET r == ApplyX("RANGE", <<2, 7>>)[1] IN [i \in 1..Len(r) |-> <<ToString(r[i])>>])),
+          Probe("functor:range", "i3", ExprItems(p, "i", "i", Call("range", "RANGE", <<V("x"), V("z"), N(-2)>>)),
+                Rows(p \o "o", LET r == ApplyX("RANGE", <<7, 2, -2>>)[1] IN [i \in 1..Len(r) |-> <<ToString(r[i])>>])),
+          Probe("functor:range", "u2", ExprItems(p, "u", "u", Call("range", "URANGE", <<V("z"), V("x")>>)),
+                Rows(p \o "o", LET r == ApplyX("URANGE", <<2, 7>>)[1] IN [i \in 1..Len(r) |-> <<UDecimal(r[i])>>])),
+          Probe("functor:range", "f2", ExprItems(p, "f", "f", Call("range", "FRANGE", <<V("z"), V("x")>>)), <<>>) >>
+
+\* ---- B. constraints ----------------------------------------------------------
+CmpSyms == << <<"=", "EQ">>, <<"!=", "NE">>, <<"<", "LT">>, <<"<=", "LE">>, <<">", "GT">>, <<">=", "GE">> >>
+TypedCmp(base, ty) == IF base \in {"EQ", "NE"} \/ ty = "i" THEN base
+                      ELSE (CASE ty = "u" -> "U" [] ty = "s" -> "S" [] ty = "f" -> "F") \o base
+CmpKind(base) == "constraint:" \o (CASE base = "EQ" -> "eq" [] base = "NE" -> "ne" [] base = "LT" -> "lt"
+                                     [] base = "LE" -> "le" [] base = "GT" -> "gt" [] base = "GE" -> "ge")
+ConstraintProbes(p) ==
+    Flat([i \in 1..Len(CmpSyms) |-> LET sy == CmpSyms[i][1]  base == CmpSyms[i][2] IN
+          [j \in 1..4 |-> LET ty == <<"i", "u", "s", "f">>[j]  op == TypedCmp(base, ty) IN
+             Probe(CmpKind(base), ty, CmpItems(p, ty, <<C(sy, op, V("y"), V("x"))>>),
+                   IF ty = "f" THEN <<>> ELSE CmpExpect(p, CmpX(op, Env(ty).y, Env(ty).x)[1]))]])
+    \o << Probe("constraint:match", "s", CmpItems(p, "s", <<CC("match", "MATCH", S("a.*"), V("x"))>>),
+                CmpExpect(p, CmpX("MATCH", "a.*", "ab")[1])),
+          Probe("constraint:contains", "s", CmpItems(p, "s", <<CC("contains", "CONTAINS", V("y"), V("x"))>>),
+                CmpExpect(p, CmpX("CONTAINS", "b", "ab")[1])),
+          Probe("constraint:not-match", "s", CmpItems(p, "s", <<NotL(CC("match", "MATCH", S("a.*"), V("y")))>>),
+                CmpExpect(p, CmpX("NOT_MATCH", "a.*", "b")[1])),
+          Probe("constraint:not-contains", "s", CmpItems(p, "s", <<NotL(CC("contains", "CONTAINS", V("x"), V("y")))>>),
+                CmpExpect(p, CmpX("NOT_CONTAINS", "ab", "b")[1])),
+          Probe("constraint:negated", "lt", CmpItems(p, "i", <<NotL(C("<", "LT", V("x"), V("y")))>>),
+                CmpExpect(p, ~CmpX("LT", 7, 3)[1])),
+          Probe("constraint:negated", "eq", CmpItems(p, "i", <<NotL(C("=", "EQ", V("x"), V("y")))>>),
+                CmpExpect(p, ~CmpX("EQ", 7, 3)[1])),
+          Probe("constraint:true", "-", CmpItems(p, "i", <<TrueL>>), CmpExpect(p, TRUE)),
+          Probe("constraint:false", "-", CmpItems(p, "i", <<FalseL>>), CmpExpect(p, FALSE)) >>
+
+\* ---- C. terms and literal forms ------------------------------------------------
+\* o(E).  a fact whose single argument is the term
+FactProbe(p, kind, variant, ty, e, rows) ==
+    Probe(kind, variant, << Decl(p \o "o", A1(ty)), Out(p \o "o"), Fact(p \o "o", <<e>>) >>,
+          IF rows = <<>> THEN <<>> ELSE Rows(p \o "o", rows))
+\* o(strlen(S)) / o(S): string constants
+StrProbe(p, variant, s, direct) ==
+    Probe("term:string", variant,
+          << Decl(p \o "o", A1("number")), Out(p \o "o"), Fact(p \o "o", <<Call("strlen", "STRLEN", <<S(s)>>)>>) >>
+          \o (IF direct THEN << Decl(p \o "q", A1("symbol")), Out(p \o "q"), Fact(p \o "q", <<S(s)>>) >> ELSE <<>>),
+          Rows(p \o "o", << <<ToString(Len(s))>> >>) \o (IF direct THEN Rows(p \o "q", << <<s>> >>) ELSE <<>>))
+PairT(p) == TyRec(p \o "Pr", <<<<"a", "number">>, <<"b", "symbol">>>>)
+TreeT(p) == TyAdt(p \o "Tr", <<Br(p \o "Leaf", <<>>), Br(p \o "Node", <<<<"v", "number">>, <<"t", p \o "Tr">>>>)>>)
+NumFacts(p, r) == << Decl(p \o r, A1("number")), Fact(p \o r, <<N(1)>>), Fact(p \o r, <<N(2)>>), Fact(p \o r, <<N(4)>>) >>
+NumVals == <<1, 2, 4>>
+SumSeq(s) == LET RECURSIVE f(_) f(i) == IF i > Len(s) THEN 0 ELSE s[i] + f(i + 1) IN f(1)
+MinSeq(s) == CHOOSE m \in SeqRange(s) : \A y \in SeqRange(s) : m <= y
+MaxSeq(s) == CHOOSE m \in SeqRange(s) : \A y \in SeqRange(s) : m >= y
+AggProbe(p, variant, agg, rty, rows) ==
+    Probe("term:aggregate-" \o agg.op, variant,
+          NumFacts(p, "b") \o << Decl(p \o "o", A1(rty)), Out(p \o "o"),
+                                 Rule(At(p \o "o", <<V("r")>>), <<C("=", "EQ", V("r"), agg)>>) >>,
+          IF rows = <<>> THEN <<>> ELSE Rows(p \o "o", rows))
+TermProbes(p) ==
+    << FactProbe(p, "term:number", "decimal", "number", N(42), << <<"42">> >>),
+       FactProbe(p, "term:number", "negative", "number", N(-42), << <<"-42">> >>),
+       FactProbe(p, "term:number", "hex", "number", L("0x1F", "i", 31), << <<"31">> >>),
+       FactProbe(p, "term:number", "binary", "number", L("0b101", "i", 5), << <<"5">> >>),
+       FactProbe(p, "term:number", "ipv4", "number", L("1.2.3.4", "i", 16909060), << <<"16909060">> >>),
+       FactProbe(p, "term:number", "max", "number", N(2147483647), << <<"2147483647">> >>),
+       FactProbe(p, "term:unsigned", "suffix", "unsigned", L("42u", "u", 42), << <<"42">> >>),
+       FactProbe(p, "term:unsigned", "hex-suffix", "unsigned", L("0x1Fu", "u", 31), << <<"31">> >>),
+       FactProbe(p, "term:unsigned", "binary-suffix", "unsigned", L("0b101u", "u", 5), << <<"5">> >>),
+       FactProbe(p, "term:unsigned", "no-suffix", "unsigned", L("42", "u", 42), << <<"42">> >>),
+       FactProbe(p, "term:unsigned", "large", "unsigned", L("4294967295u", "u", -1), << <<UDecimal(-1)>> >>),
+       \* the suffix is the only thing that makes the constant unsigned here
+       FactProbe(p, "term:unsigned", "suffix-polymorphic-context", "symbol",
+                 Call("to_string", "U2S", <<L("4294967295u", "u", -1)>>), << <<UDecimal(-1)>> >>),
+       FactProbe(p, "term:unsigned", "suffix-in-ord", "number", Call("ord", "ORD", <<L("7u", "u", 7)>>), <<>>),
+       FactProbe(p, "term:float", "plain", "float", L("1.5", "f", 0), <<>>),
+       FactProbe(p, "term:float", "negative", "float", L("-2.25", "f", 0), <<>>),
+       FactProbe(p, "term:float", "polymorphic-context", "symbol", Call("to_string", "F2S", <<L("2.0", "f", 0)>>), <<>>),
+       StrProbe(p, "plain", "abc", TRUE), StrProbe(p, "empty", "", TRUE), StrProbe(p, "space-punct", "a b,c;d.e", TRUE),
+       Probe("term:string-escape-quote", "-", StrProbe(p, "", "a\"b", TRUE).items, StrProbe(p, "", "a\"b", TRUE).expect),
+       Probe("term:string-escape-backslash", "-", StrProbe(p, "", "a\\b", TRUE).items, StrProbe(p, "", "a\\b", TRUE).expect),
+       Probe("term:string-escape-newline", "-", StrProbe(p, "", "a\nb", FALSE).items, StrProbe(p, "", "a\nb", FALSE).expect),
+       Probe("term:string-escape-tab", "-", StrProbe(p, "", "a\tb", FALSE).items, StrProbe(p, "", "a\tb", FALSE).expect),
+       Probe("term:string-escape-cr", "-", StrProbe(p, "", "a\rb", FALSE).items, StrProbe(p, "", "a\rb", FALSE).expect),
+       \* records / nil / ADTs: constructed in a fact, taken apart again in a rule
+       Probe("term:record", "cons-pattern",
+             << PairT(p), Decl(p \o "r", A1(p \o "Pr")), Fact(p \o "r", <<Rec(<<N(1), S("a")>>)>>),
+                Decl(p \o "o", <<<<"a", "number">>, <<"b", "symbol">>>>), Out(p \o "o"),
+                Rule(At(p \o "o", <<V("a"), V("b")>>), <<At(p \o "r", <<Rec(<<V("a"), V("b")>>)>>)>>) >>,
+             Rows(p \o "o", << <<"1", "a">> >>)),
+       Probe("term:record", "empty",
+             << TyRec(p \o "E", <<>>), Decl(p \o "r", A1(p \o "E")), Fact(p \o "r", <<Rec(<<>>)>>),
+                Decl(p \o "o", A1("number")), Out(p \o "o"),
+                Rule(At(p \o "o", <<N(1)>>), <<At(p \o "r", <<Rec(<<>>)>>)>>) >>, Rows(p \o "o", << <<"1">> >>)),
+       Probe("term:record", "nested",
+             << PairT(p), TyRec(p \o "Q", <<<<"h", p \o "Pr">>, <<"t", p \o "Q">>>>),
+                Decl(p \o "r", A1(p \o "Q")), Fact(p \o "r", <<Rec(<<Rec(<<N(1), S("a")>>), NilT>>)>>),
+                Decl(p \o "o", A1("number")), Out(p \o "o"),
+                Rule(At(p \o "o", <<V("a")>>), <<At(p \o "r", <<Rec(<<Rec(<<V("a"), AnyT>>), NilT>>)>>)>>) >>,
+             Rows(p \o "o", << <<"1">> >>)),
+       Probe("term:nil", "-",
+             << PairT(p), Decl(p \o "r", A1(p \o "Pr")), Fact(p \o "r", <<NilT>>), Fact(p \o "r", <<Rec(<<N(1), S("a")>>)>>),
+                Decl(p \o "o", A1("number")), Out(p \o "o"),
+                Rule(At(p \o "o", <<N(1)>>), <<At(p \o "r", <<V("v")>>), C("=", "EQ", V("v"), NilT)>>) >>,
+             Rows(p \o "o", << <<"1">> >>)),
+       Probe("term:adt", "enum-branch",
+             << TyAdt(p \o "En", <<Br(p \o "Red", <<>>), Br(p \o "Green", <<>>)>>),
+                Decl(p \o "r", A1(p \o "En")), Fact(p \o "r", <<Adt(p \o "Red", <<>>)>>),
+                Decl(p \o "o", A1("number")), Out(p \o "o"),
+                Rule(At(p \o "o", <<N(1)>>), <<At(p \o "r", <<Adt(p \o "Red", <<>>)>>)>>),
+                Rule(At(p \o "o", <<N(2)>>), <<At(p \o "r", <<Adt(p \o "Green", <<>>)>>)>>) >>,
+             Rows(p \o "o", << <<"1">> >>)),
+       Probe("term:adt", "branch-args-recursive",
+             << TreeT(p), Decl(p \o "r", A1(p \o "Tr")),
+                Fact(p \o "r", <<Adt(p \o "Node", <<N(5), Adt(p \o "Leaf", <<>>)>>)>>),
+                Decl(p \o "o", A1("number")), Out(p \o "o"),
+                Rule(At(p \o "o", <<V("v")>>), <<At(p \o "r", <<Adt(p \o "Node", <<V("v"), Adt(p \o "Leaf", <<>>)>>)>>)>>) >>,
+             Rows(p \o "o", << <<"5">> >>)),
+       Probe("term:as", "subtype",
+             << TySub(p \o "Sub", "number") >> \o ExprItems(p, "i", "i", Fn(InfixOps[10], "i", <<As(V("x"), p \o "Sub"), As(V("y"), "number")>>, FALSE)),
+             Rows(p \o "o", << <<"10">> >>)),
+       Probe("term:unnamed", "-", << Decl(p \o "a", A3("number")), Fact(p \o "a", <<N(7), N(3), N(2)>>),
+                Decl(p \o "o", A1("number")), Out(p \o "o"),
+                Rule(At(p \o "o", <<V("x")>>), <<At(p \o "a", <<V("x"), AnyT, AnyT>>)>>) >>, Rows(p \o "o", << <<"7">> >>)),
+       Probe("term:autoinc", "-", << Decl(p \o "o", A1("number")), Out(p \o "o"), Fact(p \o "o", <<AutoInc>>) >>, <<>>),
+       Probe("term:dollar-counter", "-", << Decl(p \o "o", A1("number")), Out(p \o "o"), Fact(p \o "o", <<Dollar>>) >>, <<>>),
+       Probe("term:iteration-counter", "-",
+             << Decl(p \o "o", <<<<"v", "number">>, <<"i", "number">>>>), Out(p \o "o"), Fact(p \o "o", <<N(0), N(0)>>),
+                Rule(At(p \o "o", <<Fn(InfixOps[10], "i", <<V("v"), N(1)>>, FALSE), IterCnt>>),
+                     <<At(p \o "o", <<V("v"), AnyT>>), C("<", "LT", V("v"), N(3))>>) >>, <<>>),
+       Probe("term:user-functor", "call",
+             << FunctorD(p \o "f", <<<<"x", "number">>>>, "number", FALSE), Decl(p \o "o", A1("number")), Out(p \o "o"),
+                Fact(p \o "o", <<Udf(p \o "f", <<N(1)>>)>>) >>, <<>>),
+       AggProbe(p, "braces", Agg("count", <<>>, <<At(p \o "b", <<AnyT>>)>>), "number", << <<ToString(Len(NumVals))>> >>),
+       AggProbe(p, "bare-atom", AggBare("count", <<>>, At(p \o "b", <<AnyT>>)), "number", << <<ToString(Len(NumVals))>> >>),
+       AggProbe(p, "braces", Agg("sum", <<V("v")>>, <<At(p \o "b", <<V("v")>>)>>), "number", << <<ToString(SumSeq(NumVals))>> >>),
+       AggProbe(p, "target-expression", Agg("sum", <<Fn(InfixOps[12], "i", <<V("v"), N(2)>>, FALSE)>>, <<At(p \o "b", <<V("v")>>)>>),
+                "number", << <<ToString(2 * SumSeq(NumVals))>> >>),
+       AggProbe(p, "braces", Agg("min", <<V("v")>>, <<At(p \o "b", <<V("v")>>)>>), "number", << <<ToString(MinSeq(NumVals))>> >>),
+       AggProbe(p, "body-constraint", Agg("max", <<V("v")>>, <<At(p \o "b", <<V("v")>>), C("<", "LT", V("v"), N(4))>>),
+                "number", << <<ToString(MaxSeq(SelectSeq(NumVals, LAMBDA x : x < 4)))>> >>),
+       AggProbe(p, "braces", Agg("mean", <<V("v")>>, <<At(p \o "b", <<V("v")>>)>>), "float", <<>>),
+       Probe("term:aggregate-nested", "-",
+             NumFacts(p, "b") \o << Decl(p \o "o", A1("number")), Out(p \o "o"),
+                Rule(At(p \o "o", <<V("r")>>),
+                     <<C("=", "EQ", V("r"), Agg("count", <<>>, <<At(p \o "b", <<V("v")>>),
+                                C("=", "EQ", V("v"), Agg("max", <<V("w")>>, <<At(p \o "b", <<V("w")>>)>>))>>))>>) >>,
+             Rows(p \o "o", << <<"1">> >>)),
+       Probe("term:aggregate-outer-variable", "-",
+             NumFacts(p, "b") \o << Decl(p \o "o", <<<<"v", "number">>, <<"c", "number">>>>), Out(p \o "o"),
+                Rule(At(p \o "o", <<V("v"), V("c")>>),
+                     <<At(p \o "b", <<V("v")>>),
+                       C("=", "EQ", V("c"), Agg("count", <<>>, <<At(p \o "b", <<V("w")>>), C("<", "LT", V("w"), V("v"))>>))>>) >>,
+             Rows(p \o "o", [i \in 1..Len(NumVals) |->
+                              <<ToString(NumVals[i]), ToString(Cardinality({j \in 1..Len(NumVals) : NumVals[j] < NumVals[i]}))>>])) >>
+
+\* ---- D. clause and literal forms ----------------------------------------------
+Two(p) == << Decl(p \o "a", A1("number")), Fact(p \o "a", <<N(1)>>), Fact(p \o "a", <<N(2)>>),
+             Decl(p \o "b", A1("number")), Fact(p \o "b", <<N(2)>>), Fact(p \o "b", <<N(3)>>),
+             Decl(p \o "o", A1("number")), Out(p \o "o") >>
+X == <<V("x")>>
+ClauseProbes(p) ==
+    << Probe("literal:atom", "join", Two(p) \o <<Rule(At(p \o "o", X), <<At(p \o "a", X), At(p \o "b", X)>>)>>,
+             Rows(p \o "o", << <<"2">> >>)),
+       Probe("literal:negation", "-", Two(p) \o <<Rule(At(p \o "o", X), <<At(p \o "a", X), NegA(p \o "b", X)>>)>>,
+             Rows(p \o "o", << <<"1">> >>)),
+       Probe("literal:nullary-atom", "-",
+             << DeclQ(<<p \o "n">>, <<>>, <<>>, <<>>), Fact(p \o "n", <<>>), Decl(p \o "o", A1("number")), Out(p \o "o"),
+                Rule(At(p \o "o", <<N(1)>>), <<At(p \o "n", <<>>)>>) >>, Rows(p \o "o", << <<"1">> >>)),
+       Probe("clause:disjunction", "top-level",
+             Two(p) \o <<ClauseP(<<At(p \o "o", X)>>, <<<<At(p \o "a", X)>>, <<At(p \o "b", X)>>>>, <<>>)>>,
+             Rows(p \o "o", << <<"1">>, <<"2">>, <<"3">> >>)),
+       Probe("clause:disjunction", "grouped",
+             Two(p) \o <<Rule(At(p \o "o", X), <<At(p \o "a", X), Group(<<<<At(p \o "b", X)>>, <<C("=", "EQ", V("x"), N(1))>>>>)>>)>>,
+             Rows(p \o "o", << <<"1">>, <<"2">> >>)),
+       Probe("clause:negated-group", "-",
+             Two(p) \o <<Rule(At(p \o "o", X), <<At(p \o "a", X), NotL(Group(<<<<At(p \o "b", X), C("<", "LT", V("x"), N(5))>>>>))>>)>>,
+             Rows(p \o "o", << <<"1">> >>)),
+       Probe("clause:multiple-heads", "-",
+             Two(p) \o << Decl(p \o "q", A1("number")), Out(p \o "q"),
+                          ClauseP(<<At(p \o "o", X), At(p \o "q", X)>>, <<<<At(p \o "a", X)>>>>, <<>>) >>,
+             Rows(p \o "o", << <<"1">>, <<"2">> >>) \o Rows(p \o "q", << <<"1">>, <<"2">> >>)),
+       Probe("clause:fact", "multi-column",
+             << Decl(p \o "o", <<<<"a", "number">>, <<"b", "symbol">>>>), Out(p \o "o"), Fact(p \o "o", <<N(1), S("x")>>) >>,
+             Rows(p \o "o", << <<"1", "x">> >>)),
+       Probe("clause:recursion", "-",
+             << Decl(p \o "e", <<<<"a", "number">>, <<"b", "number">>>>), Fact(p \o "e", <<N(1), N(2)>>), Fact(p \o "e", <<N(2), N(3)>>),
+                Decl(p \o "o", <<<<"a", "number">>, <<"b", "number">>>>), Out(p \o "o"),
+                Rule(At(p \o "o", <<V("x"), V("y")>>), <<At(p \o "e", <<V("x"), V("y")>>)>>),
+                Rule(At(p \o "o", <<V("x"), V("z")>>), <<At(p \o "o", <<V("x"), V("y")>>), At(p \o "e", <<V("y"), V("z")>>)>>) >>,
+             Rows(p \o "o", << <<"1", "2">>, <<"2", "3">>, <<"1", "3">> >>)),
+       Probe("clause:plan", "one-version",
+             Two(p) \o <<ClauseP(<<At(p \o "o", X)>>, <<<<At(p \o "a", X), At(p \o "b", X)>>>>, << <<0, <<2, 1>>>> >>)>>,
+             Rows(p \o "o", << <<"2">> >>)),
+       Probe("clause:plan", "two-versions",
+             << Decl(p \o "e", <<<<"a", "number">>, <<"b", "number">>>>), Fact(p \o "e", <<N(1), N(2)>>), Fact(p \o "e", <<N(2), N(3)>>),
+                Decl(p \o "o", <<<<"a", "number">>, <<"b", "number">>>>), Out(p \o "o"),
+                Rule(At(p \o "o", <<V("x"), V("y")>>), <<At(p \o "e", <<V("x"), V("y")>>)>>),
+                ClauseP(<<At(p \o "o", <<V("x"), V("z")>>)>>, <<<<At(p \o "o", <<V("x"), V("y")>>), At(p \o "o", <<V("y"), V("z")>>)>>>>,
+                        << <<0, <<2, 1>>>>, <<1, <<1, 2>>>> >>) >>,
+             Rows(p \o "o", << <<"1", "2">>, <<"2", "3">>, <<"1", "3">> >>)),
+       Probe("clause:plan", "on-disjunction",
+             Two(p) \o <<ClauseP(<<At(p \o "o", X)>>, <<<<At(p \o "a", X), At(p \o "b", X)>>, <<At(p \o "b", X), At(p \o "a", X)>>>>,
+                                 << <<0, <<2, 1>>>> >>)>>,
+             Rows(p \o "o", << <<"2">> >>)),
+       Probe("clause:subsumption", "named-variables",
+             << DeclQ(<<p \o "o">>, A1("number"), <<"btree_delete">>, <<>>), Out(p \o "o"),
+                Fact(p \o "o", <<N(1)>>), Fact(p \o "o", <<N(3)>>), Fact(p \o "o", <<N(2)>>),
+                Subsume(At(p \o "o", <<V("x")>>), At(p \o "o", <<V("y")>>), <<<<C("<", "LT", V("x"), V("y"))>>>>, <<>>) >>,
+             Rows(p \o "o", << <<"3">> >>)),
+       Probe("clause:subsumption", "unnamed-variables",
+             << DeclQ(<<p \o "o">>, <<<<"a", "number">>, <<"b", "number">>>>, <<"btree_delete">>, <<>>), Out(p \o "o"),
+                Fact(p \o "o", <<N(1), N(5)>>), Fact(p \o "o", <<N(3), N(6)>>),
+                Subsume(At(p \o "o", <<V("x"), AnyT>>), At(p \o "o", <<V("y"), AnyT>>), <<<<C("<", "LT", V("x"), V("y"))>>>>, <<>>) >>,
+             Rows(p \o "o", << <<"3", "6">> >>)) >>
+
+\* ---- E. declarations, types, directives, components ---------------------------
+\* a relation with qualifier q that is copied to an output
+QualProbe(p, q, variant, extra) ==
+    Probe("decl:" \o q, variant,
+          << Decl(p \o "a", A1("number")), Fact(p \o "a", <<N(1)>>), Fact(p \o "a", <<N(2)>>),
+             DeclQ(<<p \o "r">>, A1("number"), <<q>>, <<>>), Rule(At(p \o "r", X), <<At(p \o "a", X)>>),
+             Decl(p \o "o", A1("number")), Out(p \o "o"), Rule(At(p \o "o", X), <<At(p \o "r", X)>>) >> \o extra,
+          Rows(p \o "o", << <<"1">>, <<"2">> >>))
+PQ(k, v, style) == <<k, v, style>>
+DeclProbes(p) ==
+    << QualProbe(p, "inline", "-", <<>>), QualProbe(p, "no_inline", "-", <<>>), QualProbe(p, "magic", "-", <<>>),
+       QualProbe(p, "no_magic", "-", <<>>), QualProbe(p, "brie", "-", <<>>), QualProbe(p, "btree", "-", <<>>),
+       QualProbe(p, "btree_delete", "-", <<>>),
+       Probe("decl:eqrel", "-",
+             << DeclQ(<<p \o "o">>, <<<<"a", "number">>, <<"b", "number">>>>, <<"eqrel">>, <<>>), Out(p \o "o"),
+                Fact(p \o "o", <<N(1), N(2)>>) >>,
+             Rows(p \o "o", << <<"1", "1">>, <<"1", "2">>, <<"2", "1">>, <<"2", "2">> >>)),
+       \* deprecated I/O qualifiers
+       Probe("decl:qualifier-output", "-", << DeclQ(<<p \o "o">>, A1("number"), <<"output">>, <<>>), Fact(p \o "o", <<N(1)>>) >>,
+             Rows(p \o "o", << <<"1">> >>)),
+       Probe("decl:qualifier-input", "-", << DeclQ(<<p \o "i">>, A1("number"), <<"input">>, <<>>) >>, <<>>),
+       Probe("decl:qualifier-printsize", "-", << DeclQ(<<p \o "s">>, A1("number"), <<"printsize">>, <<>>), Fact(p \o "s", <<N(1)>>) >>, <<>>),
+       Probe("decl:multiple-names", "-",
+             << DeclQ(<<p \o "o", p \o "q">>, A1("number"), <<>>, <<>>), Out(p \o "o"), Out(p \o "q"),
+                Fact(p \o "o", <<N(1)>>), Fact(p \o "q", <<N(2)>>) >>,
+             Rows(p \o "o", << <<"1">> >>) \o Rows(p \o "q", << <<"2">> >>)),
+       Probe("decl:two-qualifiers", "-", QualProbe(p, "no_inline", "", <<>>).items
+                \o << DeclQ(<<p \o "t">>, A1("number"), <<"no_magic", "brie">>, <<>>) >>, Rows(p \o "o", << <<"1">>, <<"2">> >>)),
+       Probe("decl:choice-domain", "single",
+             << DeclQ(<<p \o "o">>, <<<<"a", "number">>, <<"b", "number">>>>, <<>>, <<<<"a">>>>), Out(p \o "o"),
+                Fact(p \o "o", <<N(1), N(2)>>) >>, Rows(p \o "o", << <<"1", "2">> >>)),
+       Probe("decl:choice-domain", "tuple",
+             << DeclQ(<<p \o "o">>, <<<<"a", "number">>, <<"b", "number">>, <<"c", "number">>>>, <<>>, <<<<"a", "b">>>>), Out(p \o "o"),
+                Fact(p \o "o", <<N(1), N(2), N(3)>>) >>, Rows(p \o "o", << <<"1", "2", "3">> >>)),
+       Probe("decl:choice-domain", "several",
+             << DeclQ(<<p \o "o">>, <<<<"a", "number">>, <<"b", "number">>, <<"c", "number">>>>, <<>>, <<<<"a">>, <<"b", "c">>>>), Out(p \o "o"),
+                Fact(p \o "o", <<N(1), N(2), N(3)>>) >>, Rows(p \o "o", << <<"1", "2", "3">> >>)),
+       Probe("decl:debug_delta", "-",
+             << Decl(p \o "a", A1("number")), Fact(p \o "a", <<N(1)>>),
+                Rule(At(p \o "a", <<Fn(InfixOps[10], "i", <<V("x"), N(1)>>, FALSE)>>), <<At(p \o "a", X), C("<", "LT", V("x"), N(3))>>),
+                Delta(p \o "d", p \o "a"), Decl(p \o "o", A1("number")), Out(p \o "o"),
+                Rule(At(p \o "o", X), <<At(p \o "d", X)>>) >>, <<>>),
+       \* types
+       Probe("type:subset", "-", << TySub(p \o "T", "number"), Decl(p \o "o", A1(p \o "T")), Out(p \o "o"), Fact(p \o "o", <<N(1)>>) >>,
+             Rows(p \o "o", << <<"1">> >>)),
+       Probe("type:union", "-",
+             << TySub(p \o "T", "symbol"), TySub(p \o "U", "symbol"), TyUnion(p \o "W", <<p \o "T", p \o "U">>),
+                Decl(p \o "o", A1(p \o "W")), Out(p \o "o"), Fact(p \o "o", <<S("a")>>) >>, Rows(p \o "o", << <<"a">> >>)),
+       Probe("type:alias", "-", << TyUnion(p \o "W", <<"number">>), Decl(p \o "o", A1(p \o "W")), Out(p \o "o"), Fact(p \o "o", <<N(1)>>) >>,
+             Rows(p \o "o", << <<"1">> >>)),
+       Probe("type:record", "-", << PairT(p), Decl(p \o "r", A1(p \o "Pr")) >>, <<>>),
+       Probe("type:adt", "-", << TreeT(p), Decl(p \o "r", A1(p \o "Tr")) >>, <<>>),
+       Probe("type:deprecated", "number_type", << Raw(".number_type " \o p \o "T"), Decl(p \o "o", A1(p \o "T")), Out(p \o "o"), Fact(p \o "o", <<N(1)>>) >>,
+             Rows(p \o "o", << <<"1">> >>)),
+       Probe("type:deprecated", "symbol_type", << Raw(".symbol_type " \o p \o "T"), Decl(p \o "o", A1(p \o "T")), Out(p \o "o"), Fact(p \o "o", <<S("a")>>) >>,
+             Rows(p \o "o", << <<"a">> >>)),
+       Probe("type:deprecated", "bare", << Raw(".type " \o p \o "T"), Decl(p \o "o", A1(p \o "T")), Out(p \o "o"), Fact(p \o "o", <<S("a")>>) >>,
+             Rows(p \o "o", << <<"a">> >>)),
+       \* user-defined functor declarations
+       Probe("functor-decl:named-parameters", "-", << FunctorD(p \o "f", <<<<"x", "number">>, <<"y", "symbol">>>>, "number", FALSE) >>, <<>>),
+       Probe("functor-decl:unnamed-parameters", "-", << FunctorD(p \o "f", <<<<"", "number">>, <<"", "symbol">>>>, "number", FALSE) >>, <<>>),
+       Probe("functor-decl:no-parameters", "-", << FunctorD(p \o "f", <<>>, "symbol", FALSE) >>, <<>>),
+       Probe("functor-decl:stateful", "-", << FunctorD(p \o "f", <<<<"x", "number">>>>, "number", TRUE) >>, <<>>),
+       \* directives
+       Probe("directive:input", "plain", << Decl(p \o "i", A1("number")), Dir("input", <<p \o "i">>, <<>>) >>, <<>>),
+       Probe("directive:input", "parameters",
+             << Decl(p \o "i", A1("number")),
+                Dir("input", <<p \o "i">>, <<PQ("IO", "file", "id"), PQ("filename", "x.facts", "str"), PQ("delimiter", ",", "str")>>) >>, <<>>),
+       Probe("directive:parameter-value", "number", << Decl(p \o "i", A1("number")), Dir("input", <<p \o "i">>, <<PQ("n", "3", "num")>>) >>, <<>>),
+       Probe("directive:parameter-value", "boolean", << Decl(p \o "i", A1("number")), Dir("input", <<p \o "i">>, <<PQ("headers", "true", "bool")>>) >>, <<>>),
+       Probe("directive:parameter-value", "tab", << Decl(p \o "i", A1("number")), Dir("input", <<p \o "i">>, <<PQ("delimiter", "\t", "str")>>) >>, <<>>),
+       Probe("directive:parameter-value-escape-quote", "-",
+             << Decl(p \o "i", A1("number")), Dir("input", <<p \o "i">>, <<PQ("filename", "a\"b", "str")>>) >>, <<>>),
+       Probe("directive:parameter-value-escape-backslash", "-",
+             << Decl(p \o "i", A1("number")), Dir("input", <<p \o "i">>, <<PQ("filename", "a\\b", "str")>>) >>, <<>>),
+       Probe("directive:output", "parameters",
+             << Decl(p \o "o", A1("number")), Fact(p \o "o", <<N(1)>>),
+                Dir("output", <<p \o "o">>, <<PQ("IO", "file", "id"), PQ("delimiter", ",", "str")>>) >>, Rows(p \o "o", << <<"1">> >>)),
+       Probe("directive:output", "several-relations",
+             << Decl(p \o "o", A1("number")), Fact(p \o "o", <<N(1)>>), Decl(p \o "q", A1("number")), Fact(p \o "q", <<N(2)>>),
+                Dir("output", <<p \o "o", p \o "q">>, <<>>) >>, Rows(p \o "o", << <<"1">> >>) \o Rows(p \o "q", << <<"2">> >>)),
+       Probe("directive:output", "twice",
+             << Decl(p \o "o", A1("number")), Fact(p \o "o", <<N(1)>>), Out(p \o "o"),
+                Dir("output", <<p \o "o">>, <<PQ("filename", p \o "o2.csv", "str")>>) >>, Rows(p \o "o", << <<"1">> >>)),
+       Probe("directive:printsize", "-", << Decl(p \o "s", A1("number")), Fact(p \o "s", <<N(1)>>), Dir("printsize", <<p \o "s">>, <<>>) >>, <<>>),
+       Probe("directive:limitsize", "-",
+             << Decl(p \o "o", A1("number")), Out(p \o "o"), Fact(p \o "o", <<N(0)>>),
+                Rule(At(p \o "o", <<Fn(InfixOps[10], "i", <<V("x"), N(1)>>, FALSE)>>), <<At(p \o "o", X), C("<", "LT", V("x"), N(5))>>),
+                Dir("limitsize", <<p \o "o">>, <<PQ("n", "3", "num")>>) >>, <<>>),
+       \* components
+       Probe("component:init", "-",
+             << Comp(CompT(p \o "C", <<>>), <<>>, << Decl("r", A1("number")), Fact("r", <<N(1)>>) >>), InitC(p \o "c", CompT(p \o "C", <<>>)),
+                Decl(p \o "o", A1("number")), Out(p \o "o"), Rule(At(p \o "o", X), <<At(p \o "c.r", X)>>) >>, Rows(p \o "o", << <<"1">> >>)),
+       Probe("component:type-parameter", "-",
+             << Comp(CompT(p \o "C", <<"T">>), <<>>, << Decl("r", A1("T")), Fact("r", <<N(1)>>) >>), InitC(p \o "c", CompT(p \o "C", <<"number">>)),
+                Decl(p \o "o", A1("number")), Out(p \o "o"), Rule(At(p \o "o", X), <<At(p \o "c.r", X)>>) >>, Rows(p \o "o", << <<"1">> >>)),
+       Probe("component:inheritance", "-",
+             << Comp(CompT(p \o "B", <<>>), <<>>, << Decl("r", A1("number")), Fact("r", <<N(1)>>) >>),
+                Comp(CompT(p \o "C", <<>>), <<CompT(p \o "B", <<>>)>>, << Fact("r", <<N(2)>>) >>), InitC(p \o "c", CompT(p \o "C", <<>>)),
+                Decl(p \o "o", A1("number")), Out(p \o "o"), Rule(At(p \o "o", X), <<At(p \o "c.r", X)>>) >>, Rows(p \o "o", << <<"1">>, <<"2">> >>)),
+       Probe("component:override", "-",
+             << Comp(CompT(p \o "B", <<>>), <<>>, << DeclQ(<<"r">>, A1("number"), <<"overridable">>, <<>>), Fact("r", <<N(1)>>) >>),
+                Comp(CompT(p \o "C", <<>>), <<CompT(p \o "B", <<>>)>>, << Override("r"), Fact("r", <<N(2)>>) >>), InitC(p \o "c", CompT(p \o "C", <<>>)),
+                Decl(p \o "o", A1("number")), Out(p \o "o"), Rule(At(p \o "o", X), <<At(p \o "c.r", X)>>) >>, Rows(p \o "o", << <<"2">> >>)),
+       Probe("component:nested", "-",
+             << Comp(CompT(p \o "C", <<>>), <<>>,
+                     << Comp(CompT("In", <<>>), <<>>, << Decl("r", A1("number")), Fact("r", <<N(1)>>) >>), InitC("i", CompT("In", <<>>)) >>),
+                InitC(p \o "c", CompT(p \o "C", <<>>)),
+                Decl(p \o "o", A1("number")), Out(p \o "o"), Rule(At(p \o "o", X), <<At(p \o "c.i.r", X)>>) >>, Rows(p \o "o", << <<"1">> >>)),
+       Probe("component:with-type-and-directive", "-",
+             << Comp(CompT(p \o "C", <<>>), <<>>, << TySub("T", "number"), Decl("r", A1("T")), Fact("r", <<N(1)>>), Out("r") >>),
+                InitC(p \o "c", CompT(p \o "C", <<>>)) >>, Rows(p \o "c.r", << <<"1">> >>)),
+       \* annotations (raw text: the token stream of an annotation is free-form)
+       Probe("annotation:outer", "decl", << Raw("@[meta]\n.decl " \o p \o "o(v:number)"), Out(p \o "o"), Fact(p \o "o", <<N(1)>>) >>, Rows(p \o "o", << <<"1">> >>)),
+       Probe("annotation:outer", "tokens", << Raw("@[meta = \"x\"]\n.decl " \o p \o "o(v:number)"), Out(p \o "o"), Fact(p \o "o", <<N(1)>>) >>, Rows(p \o "o", << <<"1">> >>)),
+       Probe("annotation:doc-comment", "decl", << Raw("/// about o\n.decl " \o p \o "o(v:number)"), Out(p \o "o"), Fact(p \o "o", <<N(1)>>) >>, Rows(p \o "o", << <<"1">> >>)),
+       Probe("annotation:inner", "clause",
+             Two(p) \o << Raw(p \o "o(x) :- @![hint] " \o p \o "a(x).") >>, Rows(p \o "o", << <<"1">>, <<"2">> >>)) >>
+
+\* pragmas are global: they take no prefix and are not composed
+PragmaProbes ==
+    << Probe("pragma:key", "-", << Pragma("verbose", <<>>), Decl("o", A1("number")), Out("o"), Fact("o", <<N(1)>>) >>, Rows("o", << <<"1">> >>)),
+       Probe("pragma:key-value", "-", << Pragma("jobs", <<"1">>), Decl("o", A1("number")), Out("o"), Fact("o", <<N(1)>>) >>, Rows("o", << <<"1">> >>)) >>
+
+Probes(p) == FunctorProbes(p) \o ConstraintProbes(p) \o TermProbes(p) \o ClauseProbes(p) \o DeclProbes(p)
+\* every probe also uses these
+BaseKinds == {"decl:plain", "clause:fact", "clause:rule", "directive:output", "term:var", "literal:atom", "term:number"}
+KindsOfProbes(ps) == {ps[i].kind : i \in 1..Len(ps)}
 =============================================================================
